@@ -26,7 +26,7 @@ def conformance(tier, seed):
 
 
 def generators(tier, seed):
-    return [dict(module="MC_C20", cfg="MC_C20_q" if tier == "quick" else "MC_C20_t", workers=4)]
+    return [dict(module="MC_C20g", cfg="MC_C20g", workers=2), dict(module="MC_C20", cfg="MC_C20_q" if tier == "quick" else "MC_C20_t", workers=4)]
 
 MANIFEST = dict(
     design_ref="DESIGN.md §5 C20",
